@@ -282,7 +282,11 @@ func c17Abstract(doc *gedcom.Document, showSite *c17Site, withPlaces bool) (enc 
 		}
 		b = append(b, c17Opt(id(f.Husband().Individual())), c17Opt(id(f.Wife().Individual())), hexs(date))
 	}
-	b = append(b, encPlev(others), strconv.Itoa(len(doc.Sources())))
+	var ptrs []string
+	for _, src := range doc.Sources() {
+		ptrs = append(ptrs, src.Pointer())
+	}
+	b = append(b, encPlev(others), c17HexList(ptrs))
 	// the page name of every person that gets a page, per visibility (document order)
 	ranks = map[string]map[string]int{}
 	for _, vis := range []html.LivingVisibility{html.LivingVisibilityShow, html.LivingVisibilityPlaceholder, html.LivingVisibilityHide} {
@@ -301,24 +305,34 @@ func c17Abstract(doc *gedcom.Document, showSite *c17Site, withPlaces bool) (enc 
 	return strings.Join(b, " "), pageIdx, ranks, nil
 }
 
-// c17ModelledFile: the files whose skeleton the model predicts.
-func c17ModelledFile(name string) bool {
+// c17SourcePages is set per document: the names of its source pages (html.PageSource).
+func c17SourcePagesOf(doc *gedcom.Document) map[string]bool {
+	m := map[string]bool{}
+	for _, src := range doc.Sources() {
+		m[html.PageSource(src)] = true
+	}
+	return m
+}
+
+// c17ModelledFile: the files whose skeleton the model predicts (not the source list, the source
+// pages and the statistics).
+func c17ModelledFile(name string, sourcePages map[string]bool) bool {
 	switch name {
 	case "sources.html", "statistics.html":
 		return false
 	}
-	return !regexp.MustCompile(`^S\d+\.html$`).MatchString(name)
+	return !sourcePages[name]
 }
 
 // c17SiteSkeleton renders the real site in the wire format of `c17site`, files in the order the
 // publisher sent them (individual pages, which come out of a Go map, sorted by name).
-func c17SiteSkeleton(site *c17Site, rank map[string]int) string {
+func c17SiteSkeleton(site *c17Site, rank map[string]int, sourcePages map[string]bool) string {
 	// the order in which files reach the writer depends on the worker schedule: use the order of
 	// sendFiles (list pages by letter, individual pages by person, places.html, place pages by key,
 	// families.html, surnames.html)
 	var listPages, indiv, placePages, tail []string
 	for name := range site.Files {
-		if !c17ModelledFile(name) {
+		if !c17ModelledFile(name, sourcePages) {
 			continue
 		}
 		_, isIndiv := rank[name]
@@ -361,4 +375,59 @@ func c17SiteSkeleton(site *c17Site, rank map[string]int) string {
 	}
 	// the model appends its agreement with the naming model of C19 (PublishNames.lean)
 	return strings.Join(parts, " ") + " names=ok,ok"
+}
+
+// c17SpecialSites ties the page model on a few fixed documents whose names collide with the fixed
+// pages, the source pages, each other and a place — the cases in which getUniqueKey hands out
+// "-1", "-2", … (the generated documents use marker tokens that never collide).
+func c17SpecialSites(c *Ctx, now int) {
+	young := fmt.Sprintf("1 BIRT\n2 DATE 1 Jan %d\n", now-20)
+	docs := []string{
+		// a dead person called Places, a place called Statistics, a source @families@
+		"0 @I1@ INDI\n1 NAME Places\n1 BIRT\n2 PLAC Statistics\n1 DEAT Y\n0 @I2@ INDI\n1 NAME Families\n" + young +
+			"0 @families@ SOUR\n1 TITL T\n0 @F1@ FAM\n1 HUSB @I1@\n1 WIFE @I2@\n",
+		// a living namesake before and after a dead person, a person named like a place
+		"0 @I1@ INDI\n1 NAME Same /Name/\n" + young + "0 @I2@ INDI\n1 NAME Same /Name/\n1 DEAT Y\n1 BIRT\n2 PLAC Old Town\n" +
+			"0 @I3@ INDI\n1 NAME Same /Name/\n" + young + "0 @I4@ INDI\n1 NAME Old /Town/\n1 DEAT Y\n0 @I5@ INDI\n1 NAME Same /Name/\n1 DEAT Y\n",
+		// source keys that need escaping, a person whose key is a source key
+		"0 @I1@ INDI\n1 NAME S1\n1 DEAT Y\n0 @I2@ INDI\n1 NAME Surnames\n1 DEAT Y\n1 BIRT\n2 PLAC S1\n0 @S1@ SOUR\n1 TITL A\n0 @places@ SOUR\n1 TITL B\n",
+	}
+	for _, text := range docs {
+		gdoc, err := gedcom.NewDocumentFromString(text)
+		if err != nil {
+			continue
+		}
+		for _, gm := range []int{63, 61} { // all groups; without places
+			var groups [6]bool
+			ob := ""
+			for k := 0; k < 6; k++ {
+				groups[k] = gm&(1<<k) != 0
+				ob += bit(groups[k])
+			}
+			sites := map[string]*c17Site{}
+			failed := false
+			for _, vis := range []string{"show", "placeholder", "hide"} {
+				site, e := c17Publish(c17Job{Gedcom: text, Vis: vis, Groups: groups, Jobs: 1})
+				c.Eval()
+				if e != "" {
+					c.Oracle("", "publish fails: "+vis, map[string]interface{}{"gedcom": text}, e, "a site")
+					failed = true
+					break
+				}
+				sites[vis] = site
+			}
+			if failed {
+				continue
+			}
+			abs, _, ranks, err := c17Abstract(gdoc, sites["show"], groups[1])
+			if err != nil {
+				c.Oracle("", "the page abstraction could not be read", map[string]interface{}{"gedcom": text}, err.Error(), "an abstraction")
+				continue
+			}
+			for _, vis := range []string{"show", "placeholder", "hide"} {
+				c.Tie(fmt.Sprintf("c17site %s %s %s", vis, ob, abs), c17SiteSkeleton(sites[vis], ranks[vis], c17SourcePagesOf(gdoc)))
+				c.Count("site-skeleton/colliding-names/" + vis)
+			}
+		}
+	}
 }
